@@ -14,6 +14,19 @@
 Require Import IP.Base.Bytes IP.DM.Value IP.Xform.Transform.
 Open Scope Z_scope.
 
+(* Three behaviours of the selector package that were changed in /repo while this check existed; each is
+   a switch so that both trees are modelled ([true] = the behaviour before the change).  The harness
+   probes them on the tree under test (probe record) and the driver sets the switches accordingly. *)
+Record squirks := {
+  sq_edge_panics : bool;     (* ExploreRecursiveEdge.Explore panics (now: returns nil, nil) *)
+  sq_exhaust_unwrap : bool;  (* an exhausted ExploreRecursive returns the remainder without its wrapper
+                                (now: wrapped again with the same limit) *)
+  sq_union_nodedup : bool    (* ExploreUnion.Interests concatenates (now: a segment with the same
+                                String() is listed once, first occurrence wins) *)
+}.
+Definition sq_old : squirks := Build_squirks true true true.
+Definition sq_new : squirks := Build_squirks false false false.
+
 Inductive sel :=
 | SMatch
 | SAll (next : sel)
@@ -44,23 +57,34 @@ Definition pseg_eqb (a b : pseg) : bool :=
   | _, _ => false
   end.
 
+(* de-duplication of ExploreUnion.Interests: keyed by PathSegment.String(), first occurrence wins *)
+Fixpoint dedup_segs (seen : list bytes) (l : list pseg) : list pseg :=
+  match l with
+  | [] => []
+  | p :: r => let k := pseg_string p in
+              if existsb (bytes_eqb k) seen then dedup_segs seen r else p :: dedup_segs (k :: seen) r
+  end.
+
 (* Interests(): None = nil slice = "everything" *)
-Fixpoint interests (s : sel) : option (list pseg) :=
+Fixpoint interests (sq : squirks) (s : sel) : option (list pseg) :=
   match s with
   | SMatch => Some []
   | SAll _ => None
   | SFields fs => Some (map (fun kv => PK (fst kv)) fs)
   | SIndex i _ => Some [PI i]
   | SUnion ms =>
-      (fix go (ms : list sel) : option (list pseg) :=
-         match ms with
-         | [] => Some []
-         | m :: r => match interests m, go r with
-                     | Some a, Some b => Some (a ++ b)
-                     | _, _ => None
-                     end
-         end) ms
-  | SRec _ cur _ => interests cur
+      match (fix go (ms : list sel) : option (list pseg) :=
+               match ms with
+               | [] => Some []
+               | m :: r => match interests sq m, go r with
+                           | Some a, Some b => Some (a ++ b)
+                           | _, _ => None
+                           end
+               end) ms with
+      | Some l => Some (if sq_union_nodedup sq then l else dedup_segs [] l)
+      | None => None
+      end
+  | SRec _ cur _ => interests sq cur
   | SEdge => Some []
   end.
 
@@ -97,8 +121,8 @@ Fixpoint replace_edge (s : sel) (repl : option sel) : option sel :=
 Definition last_field (k : bytes) (fs : list (bytes * sel)) : option sel :=
   fold_left (fun acc kv => if bytes_eqb (fst kv) k then Some (snd kv) else acc) fs None.
 
-(* Explore(n, p); [isl]: n.Kind() == Kind_List.  Err EPanic: ExploreRecursiveEdge.Explore *)
-Fixpoint explore (s : sel) (isl : bool) (p : pseg) : res xerr (option sel) :=
+(* Explore(n, p); [isl]: n.Kind() == Kind_List.  Err EPanic: ExploreRecursiveEdge.Explore (before b8b93dd) *)
+Fixpoint explore (sq : squirks) (s : sel) (isl : bool) (p : pseg) : res xerr (option sel) :=
   match s with
   | SMatch => Ok None
   | SAll next => Ok (Some next)
@@ -114,7 +138,7 @@ Fixpoint explore (s : sel) (isl : bool) (p : pseg) : res xerr (option sel) :=
       do l <- (fix go (ms : list sel) : res xerr (list sel) :=
                  match ms with
                  | [] => Ok []
-                 | m :: r => do x <- explore m isl p; do y <- go r;
+                 | m :: r => do x <- explore sq m isl p; do y <- go r;
                              Ok (match x with Some sx => sx :: y | None => y end)
                  end) ms;
       Ok (pack_union l)
@@ -122,14 +146,19 @@ Fixpoint explore (s : sel) (isl : bool) (p : pseg) : res xerr (option sel) :=
       match cur with
       | SEdge => Ok None
       | _ =>
-          do nx <- explore cur isl p;
+          do nx <- explore sq cur isl p;
           match nx with
           | None => Ok None
           | Some nx =>
               if negb (has_edge nx) then Ok (Some (SRec seq nx lim)) else
               match lim with
               | Some d =>
-                  if d <? 2 then Ok (replace_edge nx None)
+                  if d <? 2 then
+                    (if sq_exhaust_unwrap sq then Ok (replace_edge nx None)
+                     else match replace_edge nx None with
+                          | Some r => Ok (Some (SRec seq r lim))
+                          | None => Ok None
+                          end)
                   else match replace_edge nx (Some seq) with
                        | Some c => Ok (Some (SRec seq c (Some (d - 1))))
                        | None => Err EPanic
@@ -142,13 +171,14 @@ Fixpoint explore (s : sel) (isl : bool) (p : pseg) : res xerr (option sel) :=
               end
           end
       end
-  | SEdge => Err EPanic
+  | SEdge => if sq_edge_panics sq then Err EPanic else Ok None
   end.
 
 Definition attends (attn : option (list pseg)) (p : pseg) : bool :=
   match attn with None => true | Some l => existsb (pseg_eqb p) l end.
 
 Section WT.
+  Variable sq : squirks.
   Variable g : dm -> option dm.   (* the TransformFn; None = it returned the very node it was given *)
   Variable st : store.
 
@@ -168,7 +198,7 @@ Section WT.
       | [] => Ok ([], log)
       | v :: r =>
           if attends attn (PI i) then
-            do sn <- explore s true (PI i);
+            do sn <- explore sq s true (PI i);
             match sn with
             | Some sn =>
                 do v' <- load_child v;
@@ -185,7 +215,7 @@ Section WT.
       | [] => Ok ([], log)
       | (k, v) :: r =>
           if attends attn (PK k) then
-            do sn <- explore s false (PK k);
+            do sn <- explore sq s false (PK k);
             match sn with
             | Some sn =>
                 do v' <- load_child v;
@@ -208,8 +238,8 @@ Section WT.
         | Some v => Ok (v, log1)
         | None =>
             match n with
-            | DList l => do x <- wt_list (wt fu) s (interests s) 0 l log1; Ok (DList (fst x), snd x)
-            | DMap m => do x <- wt_map (wt fu) s (interests s) m log1; Ok (DMap (fst x), snd x)
+            | DList l => do x <- wt_list (wt fu) s (interests sq s) 0 l log1; Ok (DList (fst x), snd x)
+            | DMap m => do x <- wt_map (wt fu) s (interests sq s) m log1; Ok (DMap (fst x), snd x)
             | _ => Ok (n, log1)
             end
         end
